@@ -27,7 +27,7 @@ LEVEL_TEXT = ("Sampled inputs inside the property's quantifier (knot counts 3..4
 LEVEL_NOTE = ("Trusts TLC, the harness's double-precision residual evaluation and quantisation, the identification of the piece used through the public "
               "S table (tolerance 1e-9), the 3-limb order-preserving encoding of doubles; ledger inputs are sampled, not exhaustive.")
 
-PAR = int(os.environ.get("VERIF_PAR", "8"))
+PAR = int(os.environ.get("VERIF_PAR", "12"))
 
 
 def dec_name(e):
